@@ -48,6 +48,7 @@ fn shape_nodes(t: &Ty) -> usize {
 }
 
 pub fn check(o: &mut Out, t: &Ty, ts: &str, input: &[u8], class: &str, at_end: bool, model: bool) {
+    o.inflight(&format!("take_from_bytes as {} bytes {} ({})", ts, hex(input), if at_end { "flush against the guard page" } else { "starting at the guard page" }));
     let g = GuardBuf::from_bytes(input, at_end);
     // count only what the decode itself requests (not the harness's own copy of the shape)
     let (got, allocated, peak) = with_ty(t, || allocated_during(|| guarded(|| postcard::take_from_bytes::<Dyn>(g.as_ref()).map(|(d, rest)| (d.0, rest.len())))));
